@@ -105,6 +105,19 @@ theorem C25_fuel_conservative (G : Graph) (hwf : GWF G) (Q : Query) (hc : Q.incl
   simp only [keepSet_fuel_conservative G hwf Q hc hs ha, Bool.false_eq_true, ite_false]
   exact ⟨_, _, rfl⟩
 
+/-- Without `--conservative` too: on a graph that holds its dependencies and whose dependencies inside one rule are
+acyclic (`RuleRank`, true of every graph that passed cycle detection, C06), the model never reaches a bound — the result
+is always `some …`, so the three theorems above cover every such run.  (The real `publicDependencies` has no visited
+set: on a cycle inside one rule it does not terminate.) -/
+theorem C25_fuel (G : Graph) (hwf : GWF G) (Q : Query) (rank : Nat → Nat) (hr : RuleRank G rank)
+    (hb : ∀ t ∈ G.nodes, rank t ≤ G.nodes.length)
+    (hs : ∀ t ∈ Q.subincs, t ∈ G.nodes) (ha : ∀ t ∈ Q.args, t ∈ G.nodes) : ∃ ts fs, targetsToRemove G Q = some (ts, fs) := by
+  have hpd : ∀ t ∈ G.nodes, pubDeps G (G.nodes.length + 1) t ≠ none :=
+    fun t ht => pubDeps_terminates G rank hr _ t (by have := hb t ht; omega)
+  unfold targetsToRemove
+  simp only [keepSet_fuel G hwf Q hpd hs ha, Bool.false_eq_true, ite_false]
+  exact ⟨_, _, rfl⟩
+
 /-! ## the four repaired shapes -/
 
 def noB : Nat → Bool := fun _ => false
